@@ -107,7 +107,7 @@ fn main() {
                 ParallelExecutionPolicy::STATIC_PER_SHARD,
                 ParallelExecutionPolicy::DEDICATED_PER_SHARD,
             ] {
-                for workers in [1usize, 2, 3, 8] {
+                for workers in [1usize, 2, 3, 5, 7, 8] {
                     let deltas = execute_parallel_with_policy(view, items, NonZeroUsize::new(workers).unwrap(), pol);
                     let merged = merge_ops(deltas.into_iter().flat_map(warp_core::TickDelta::into_ops_unsorted).collect());
                     policy_runs += 1;
